@@ -661,6 +661,9 @@ class HTTPResponse(BaseHTTPResponse):
 
         self._pool._put_conn(self._connection)
         self._connection = None
+        # The connection is the pool's again, and maybe another request's by
+        # now: a late shutdown() of this response must not reach its socket.
+        self._sock_shutdown = None
 
     def drain_conn(self) -> None:
         """
